@@ -1,6 +1,6 @@
 //! C15: circuits on <= 4 qubits against a state-vector simulator written from the textbook gate matrices.
 use crate::{guard, Ctx};
-use num::complex::Complex64 as C;
+pub use num::complex::Complex64 as C;
 use num::{Rational64, Zero};
 use quizx::circuit::{Circuit, CircuitStats};
 use quizx::gate::{GType, GType::*, Gate};
@@ -15,6 +15,7 @@ fn h(st: &mut Vec<C>, q: usize) {
 fn zph(st: &mut Vec<C>, q: usize, a: f64) { let w = C::from_polar(1.0, PI * a); for i in 0..st.len() { if i >> q & 1 == 1 { st[i] *= w; } } }
 fn perm(st: &mut Vec<C>, f: impl Fn(usize) -> usize) { let old = st.clone(); for i in 0..old.len() { st[f(i)] = old[i]; } }
 /// reference semantics of every unitary gate kind (compound kinds by their definition, not by their expansion)
+pub fn apply_gate(st: &mut Vec<C>, g: &Gate) -> Result<(), String> { apply(st, g) }
 fn apply(st: &mut Vec<C>, g: &Gate) -> Result<(), String> {
     let q = &g.qs;
     match g.t {
